@@ -114,6 +114,77 @@ func oneWay(p pr, k, rounds, m int) string {
 	return fmt.Sprintf("(%q, %d, %d, %s, %s)", p.a+"/"+p.tr, k, m, coqgen.List(rs), pairList(bulk))
 }
 
+// fastRounds: K persistent goroutines spin on a round counter and send at the same instant, on an idle socket, many
+// thousands of times (a wake-up lost once in ten thousand coincidences shows here); the harness judges every round and
+// hands the first bad one (with what arrived) to the evaluation.  Result: (name, K, rounds asked, rounds done, first bad round's arrivals).
+func fastRounds(p pr, k, rounds int) string {
+	a, b, note := connect(p)
+	defer a.Close()
+	defer b.Close()
+	if note != "" {
+		return fmt.Sprintf("(%q, %d, %d, 0, []) (* %s *)", p.a+"/"+p.tr, k, rounds, note)
+	}
+	_ = a.SetOption(mangos.OptionSendDeadline, 2*time.Second)
+	_ = b.SetOption(mangos.OptionRecvDeadline, 2*time.Second)
+	var round, stop int32
+	round = -1
+	var wg sync.WaitGroup
+	for i := 0; i < k; i++ {
+		wg.Add(1)
+		go func(i int) {
+			defer wg.Done()
+			for r := int32(0); r < int32(rounds); r++ {
+				for atomic.LoadInt32(&round) < r && atomic.LoadInt32(&stop) == 0 {
+				}
+				if atomic.LoadInt32(&stop) != 0 {
+					return
+				}
+				_ = a.Send(body(i, int(r)))
+			}
+		}(i)
+	}
+	done := 0
+	var bad [][2]int
+	for r := 0; r < rounds; r++ {
+		if r%64 == 0 {
+			time.Sleep(50 * time.Microsecond) // now and then the socket's own goroutines really go to sleep
+		}
+		atomic.StoreInt32(&round, int32(r))
+		seen := make([]bool, k)
+		var got [][2]int
+		ok := true
+		for len(got) < k {
+			d, err := b.Recv()
+			if err != nil {
+				ok = false
+				break
+			}
+			if len(d) != 8 {
+				ok = false
+				continue
+			}
+			i, rr := int(binary.BigEndian.Uint32(d)), int(binary.BigEndian.Uint32(d[4:]))
+			got = append(got, [2]int{i, rr})
+			if i >= k || rr != r || seen[i] {
+				ok = false
+			} else {
+				seen[i] = true
+			}
+		}
+		if !ok {
+			bad = got
+			if bad == nil {
+				bad = [][2]int{}
+			}
+			break
+		}
+		done++
+	}
+	atomic.StoreInt32(&stop, 1)
+	wg.Wait()
+	return fmt.Sprintf("(%q, %d, %d, %d, %s)", p.a+"/"+p.tr, k, rounds, done, pairList(bad))
+}
+
 // request/reply: every goroutine has its own context; the reply it gets must be the echo of its own request
 func reqRep(p pr, k, rounds int) string {
 	a, b, note := connect(p)
@@ -208,7 +279,24 @@ func main() {
 	}
 	w := coqgen.Create(os.Args[1])
 	defer w.Close()
-	var one, rr []string
+	var one, rr, fast []string
+	frounds := 25000
+	if coqgen.Thorough() {
+		frounds = 250000
+	}
+	for _, p := range []pr{{"push", "pull", "inproc"}, {"xpush", "xpull", "inproc"}, {"pair", "pair", "inproc"}, {"xpair", "xpair", "inproc"}} {
+		fast = append(fast, fastRounds(p, 8, frounds))
+	}
+	w.Def("fast_cases", "list (string * N * N * N * list (N * N))", fast)
+	if os.Getenv("C11CONC_ONLY") == "pushpair" {
+		// C02: PUSH and PAIR only
+		for _, p := range []pr{{"push", "pull", "inproc"}, {"xpush", "xpull", "inproc"}, {"push", "pull", "tcp"}, {"pair", "pair", "inproc"}, {"xpair", "xpair", "inproc"}} {
+			one = append(one, oneWay(p, 8, rounds, m))
+		}
+		w.Def("oneway_cases", "list (string * N * N * list (list (N * N)) * list (N * N))", one)
+		w.Def("reqrep_cases", "list (string * N * N * list (list (N * N)) * list (N * N))", rr)
+		return
+	}
 	for _, p := range []pr{{"push", "pull", "inproc"}, {"xpush", "xpull", "inproc"}, {"push", "pull", "tcp"}, {"pair", "pair", "inproc"}, {"xpair", "xpair", "inproc"},
 		{"pair1", "pair1", "inproc"}, {"pair", "pair", "ipc"}} {
 		s := oneWay(p, 8, rounds, m)
